@@ -11,7 +11,7 @@
 From Coq Require Import List Arith Bool ZArith Lia.
 Import ListNotations.
 
-Definition tid := nat.
+Notation tid := nat (only parsing).
 
 (* ---------- list helpers ---------- *)
 Fixpoint mem (t : nat) (l : list nat) : bool :=
@@ -25,7 +25,7 @@ Fixpoint remove1 (t : nat) (l : list nat) : list nat :=
 Definition take_out (t : nat) (l : list nat) : list nat := if mem t l then remove1 t l else tl l.
 
 (* the n-th element and the rest; out of range = the first (so only the empty list gives None) *)
-Fixpoint pick (n : nat) (l : list nat) : option (nat * list nat) :=
+Fixpoint pick (n : nat) (l : list nat) {struct l} : option (nat * list nat) :=
   match l with
   | [] => None
   | x :: r => match n with
@@ -156,8 +156,8 @@ Definition init (scripts : list (list act)) : sys := mkSys sm0 scripts.
 (* DAGMutex                                                                                               *)
 (* ====================================================================================================== *)
 
-Definition eid := nat.
-Definition mref := nat.
+Notation eid := nat (only parsing).
+Notation mref := nat (only parsing).
 
 Inductive dop := DRLock (ids : list eid) | DRUnlock (ids : list eid) | DLock (id : eid) | DUnlock (id : eid).
 Inductive micro := MAct (r : mref) (a : act) | MPanic.
